@@ -46,6 +46,231 @@ def chars_next_hook(cp):
     return hook
 
 
+class _StrInput:
+    """Concrete content for a `&str` the walked function parses.
+
+    The string under test is an ordinary value of the walk — ("cstr", text) — that travels through copies, re-borrows, `&mut &str`
+    parameters and helper functions walked in place; the std operations a hand-written parser reads a string with are interpreted on
+    it: by character (`strip_prefix`, `starts_with`, `chars().next()`), by byte (`as_bytes().first()`, `bytes().next()`,
+    `split_first`, indexing) or by slicing (`&s[1..]`, `split_at`, `get(..)`).  The texts are ASCII, so byte and character
+    positions coincide.  How the function spells the test is therefore irrelevant; only what it does with the character is.
+
+    What the model cannot follow is recorded on the path instead of being guessed: "#strop" when the string is handed to an operation
+    that is not interpreted, "#unk" when the function branches on a value the walk does not know.  A verdict is only drawn from
+    paths without these flags (the caller turns a flagged disagreement into UNDECIDED)."""
+    TAG = "cstr"
+    OPT = "core::option::Option"
+    NEXT = ("<core::str::iter::Chars as core::iter::traits::iterator::Iterator>::next",
+            "<core::str::iter::Bytes as core::iter::traits::iterator::Iterator>::next")
+    SAME = ("<str>::as_bytes", "<str>::chars", "<str>::bytes", "<core::str::iter::Chars>::as_str", "<str>::as_str",
+            "<str as core::convert::AsRef<[u8]>>::as_ref", "<str as core::convert::AsRef<str>>::as_ref",
+            "<[T]>::iter", "<core::str::iter::Chars as core::clone::Clone>::clone", "<core::str::iter::Bytes as core::clone::Clone>::clone")
+    PREFIX = ("<str>::strip_prefix", "<str>::starts_with", "<str>::trim_start_matches")
+    SIZE = ("<str>::is_empty", "<[T]>::is_empty", "<str>::len", "<[T]>::len")
+    ELEM = ("<[T]>::first", "<[T]>::get", "<[T]>::split_first")
+    SLICE = ("<str as core::ops::index::Index>::index", "<[T] as core::ops::index::Index>::index", "<str>::get", "<str>::split_at")
+
+    def value(self, text):
+        return (self.TAG, text)
+
+    def text(self, env, v):
+        for _ in range(4):
+            if isinstance(v, tuple) and v and v[0] == self.TAG:
+                return v[1]
+            if isinstance(v, tuple) and v and v[0] == "ref":
+                k = v[1]
+                v = env.get(k)
+                if v is None and k.endswith(".*"):
+                    v = env.get(k[:-2])
+                continue
+            break
+        return None
+
+    def modelled(self, n):
+        return (n in self.NEXT or n in self.SAME or n in self.PREFIX or n in self.SIZE or n in self.ELEM or n in self.SLICE
+                or n.endswith("core::iter::traits::collect::IntoIterator>::into_iter"))
+
+    # -- hooks ------------------------------------------------------------------------------------------------------------------
+    def _read_indexed(self, w, env, place):
+        """`bytes[i]` spelled as a place: give the element its value before the statement reads it"""
+        pr = place.get("p") or []
+        for j, q in enumerate(pr):
+            if q != "*" and q["k"] in ("i", "ci"):
+                base = {"l": place["l"], "p": pr[:j]}
+                if j and pr[j - 1] == "*":
+                    base = {"l": place["l"], "p": pr[:j - 1]}
+                s = self.text(env, env.get(w.norm(env, base)))
+                if s is None:
+                    return
+                if q["k"] == "i":
+                    i = env.get(w.pre + str(q["l"]))
+                else:
+                    i = (len(s) - q["o"]) if q["fe"] else q["o"]
+                if isinstance(i, int) and 0 <= i < len(s):
+                    env[w.norm(env, {"l": place["l"], "p": pr[:j + 1]})] = ord(s[i])
+                else:
+                    env["#strop"] = 1
+                return
+
+    def _places(self, node):
+        if isinstance(node, dict):
+            if "l" in node and "p" in node and node.get("k") in (None, "copy", "move"):
+                yield node
+            for v in node.values():
+                if isinstance(v, (dict, list)):
+                    yield from self._places(v)
+        elif isinstance(node, list):
+            for v in node:
+                yield from self._places(v)
+
+    def on_stmt(self, w, bb, idx, st, env):
+        if st["k"] == "assign":
+            for pl in self._places(st["rv"]):
+                if pl["p"]:
+                    self._read_indexed(w, env, pl)
+        return None
+
+    def after_stmt(self, w, bb, idx, st, env):
+        # `&*s` of the string is the string
+        rv = st["rv"]
+        if rv["k"] == "ref" and rv["p"]["p"] and rv["p"]["p"][-1] == "*":
+            v = env.get(w.norm(env, {"l": rv["p"]["l"], "p": rv["p"]["p"][:-1]}))
+            if isinstance(v, tuple) and v and v[0] == self.TAG:
+                env[w.norm(env, st["p"])] = v
+
+    def on_term(self, w, bb, t, env):
+        k = t["k"]
+        if k == "switch":
+            x = t["x"]
+            if x["k"] in ("copy", "move") and x["p"]:
+                self._read_indexed(w, env, x)
+            if not isinstance(w.val(env, x), int):
+                env["#unk"] = 1
+        elif k == "call":
+            n = callee_name(t) or ""
+            args = [w.val(env, x) for x in t["xs"]]
+            if not any(self.text(env, a) is not None for a in args):
+                return None
+            if n in self.NEXT:
+                a = args[0]
+                if isinstance(a, tuple) and a[0] == "ref":
+                    env["#strnext"] = (a[1], self.text(env, a))      # the receiver is forgotten when the call is stepped
+                else:
+                    env["#strop"] = 1
+            elif not self.modelled(n) and w._inline_target(t, n) is None:
+                env["#strop"] = 1
+        return None
+
+    def _cell(self, env, ch):
+        k = "#b%d" % ord(ch)
+        env[k] = ord(ch)
+        return ("ref", k)
+
+    def call_result(self, w, bb, t, env, args):
+        n = callee_name(t) or ""
+        xs = t["xs"]
+        dst = w.norm(env, t["dst"])
+        if n in ("<core::option::Option>::copied", "<core::option::Option>::cloned") and xs and xs[0]["k"] in ("copy", "move"):
+            a = args[0]
+            if isinstance(a, tuple) and a[0] == "var":
+                if a[2] == "Some":
+                    v = env.get("%s@Some.0" % w.norm(env, xs[0]))
+                    if isinstance(v, tuple) and v[0] == "ref" and isinstance(env.get(v[1]), int):
+                        env["%s@Some.0" % dst] = env[v[1]]
+                return a
+            return None
+        if n in self.NEXT:
+            stash = env.pop("#strnext", None)
+            if not stash or stash[1] is None:
+                return None
+            key, s = stash
+            env[key] = self.value(s[1:])
+            if not s:
+                return ("var", self.OPT, "None")
+            env["%s@Some.0" % dst] = ord(s[0])
+            return ("var", self.OPT, "Some")
+        s = self.text(env, args[0]) if args else None
+        if s is None:
+            return None
+        if n in self.SAME or n.endswith("core::iter::traits::collect::IntoIterator>::into_iter"):
+            return self.value(s)
+        if n in self.PREFIX:
+            pat = args[1] if len(args) > 1 else None
+            if isinstance(pat, int):
+                pat = chr(pat)
+            elif isinstance(pat, tuple) and pat and pat[0] == "str":
+                pat = pat[1]
+            else:
+                pat = self.text(env, pat)
+            if not isinstance(pat, str) or not pat:
+                env["#strop"] = 1
+                return None
+            hit = s.startswith(pat)
+            if n == "<str>::starts_with":
+                return int(hit)
+            if n == "<str>::trim_start_matches":
+                while s.startswith(pat):
+                    s = s[len(pat):]
+                return self.value(s)
+            if hit:
+                env["%s@Some.0" % dst] = self.value(s[len(pat):])
+                return ("var", self.OPT, "Some")
+            return ("var", self.OPT, "None")
+        if n in self.SIZE:
+            return int(not s) if n.endswith("is_empty") else len(s)
+        if n in self.ELEM:
+            i = 0
+            if n == "<[T]>::get":
+                i = args[1] if len(args) > 1 else None
+            if not isinstance(i, int):
+                env["#strop"] = 1
+                return None
+            if not 0 <= i < len(s):
+                return ("var", self.OPT, "None")
+            if n == "<[T]>::split_first":
+                env["%s@Some.0.0" % dst] = self._cell(env, s[0])
+                env["%s@Some.0.1" % dst] = self.value(s[1:])
+            else:
+                env["%s@Some.0" % dst] = self._cell(env, s[i])
+            return ("var", self.OPT, "Some")
+        if n in self.SLICE:
+            if n == "<str>::split_at":
+                i = args[1] if len(args) > 1 else None
+                if not isinstance(i, int) or not 0 <= i <= len(s):
+                    env["#strop"] = 1
+                    return None
+                env[dst + ".0"] = self.value(s[:i])
+                env[dst + ".1"] = self.value(s[i:])
+                return None
+            r = args[1] if len(args) > 1 else None
+            if isinstance(r, int) and n.startswith("<[T]"):
+                env["#strop"] = 1          # `bytes[i]` through the trait: a reference to one element; not needed so far
+                return None
+            lo, hi = 0, len(s)
+            if isinstance(r, tuple) and r[0] == "var" and xs[1]["k"] in ("copy", "move"):
+                rk = w.norm(env, xs[1])
+                kind = r[1].rsplit("::", 1)[-1]
+                f0, f1 = env.get(rk + ".0"), env.get(rk + ".1")
+                if kind == "RangeFrom":
+                    lo = f0
+                elif kind == "RangeTo":
+                    hi = f0
+                elif kind == "Range":
+                    lo, hi = f0, f1
+                elif kind != "RangeFull":
+                    lo = None
+            else:
+                lo = None
+            if not (isinstance(lo, int) and isinstance(hi, int) and 0 <= lo <= hi <= len(s)):
+                env["#strop"] = 1
+                return None
+            if n == "<str>::get":
+                env["%s@Some.0" % dst] = self.value(s[lo:hi])
+                return ("var", self.OPT, "Some")
+            return self.value(s[lo:hi])
+        return None
+
+
 def rule_r1(F, rep):
     R = rep.rule("C19.R1", "the conversion letters d i u o x X e E f F g G c s %% map to their printf conversions and "
                  "every other character is rejected; the flag characters # 0 - space + each set their own flag; every "
@@ -83,41 +308,56 @@ def rule_r1(F, rep):
         if not ok:
             rep.violation(R, "%s|conv|%s" % (fn.q, label), "conversion character class %s (%r) parses to %s, printf says %s"
                           % (label, chr(a) if a is not None and a < 0x7f else a, sorted(res), sorted(exp)), fn.loc)
-    # flags
+    # flags: parse_format_cflags is walked on concrete directive tails (the flag character under test followed by a conversion
+    # letter, and the flag character at the very end of the format string) and the CFlags value it returns is read off
     fl = F.fn("<%s>::parse_format_cflags" % E)
     rep.fn(fl)
     cf = F.adt(CFLAGS)
     fnames = [f["n"] for f in cf["variants"][0]["fields"]]
+    fbody = fl.body
+    str_params = [l for l in range(1, fbody.argc + 1) if fbody.local_ty(l)["k"] == "ref" and "&str" in fbody.local_ty(l)["s"].replace(" ", "")]
+    if len(str_params) != 1:
+        raise kwalk.WalkLimit("%s: expected one `&mut &str` parameter holding the rest of the directive" % fl.q)
     for c in list(SPEC_FLAGS) + ["x", "1", "*"]:
-        def hook(w, bb, t, env, args, c=c):
-            n = callee_name(t) or ""
-            if n == "<str>::strip_prefix":
-                pat = args[1]
-                if isinstance(pat, int):
-                    k = "#seen%d" % pat
-                    if pat == ord(c) and not env.get("#consumed"):
-                        env["#consumed"] = 1
-                        return ("var", OPTION, "Some")
-                    return ("var", OPTION, "None")
-            return None
-        sets = []
-
-        def after(w, bb, idx, s, env):
-            p = s["p"]
-            if p["p"] and p["p"][-1] != "*" and p["p"][-1]["k"] == "f":
-                tys = prov.place_types(w.body, p)
-                base = tys[len(p["p"]) - 1]
-                if base["k"] == "adt" and base["d"] == CFLAGS and s["rv"]["k"] == "use" and s["rv"]["x"].get("v") == 1:
-                    sets.append(p["p"][-1]["n"])
-        w = kwalk.Walker(F, fl.body, call_result=hook, after_stmt=after, want_ret=True)
-        w.run(0, {})
-        rep.states += w.states_explored
-        got = set(sets)
+        got = set()
+        flagged = []
+        for text in (c + "d", c):
+            sm = _StrInput()
+            w = kwalk.Walker(F, fbody, call_result=sm.call_result, on_stmt=sm.on_stmt, after_stmt=sm.after_stmt, on_term=sm.on_term,
+                             want_ret=True, ret_prefixes=("0", "#"))
+            outs = w.run(0, {"%d.*" % str_params[0]: sm.value(text)})
+            rep.states += w.states_explored
+            n_ret = 0
+            for kind, marks, ret in outs:
+                if kind != "return":
+                    continue
+                n_ret += 1
+                d = dict(ret or ())
+                top = d.get("0")
+                if isinstance(top, tuple) and top[0] == "var" and top[2] == "Ok":
+                    vals = [d.get("0@Ok.0.%d" % i) for i in range(len(fnames))]
+                    if all(v in (0, 1) for v in vals):
+                        res = frozenset(fnames[i] for i, v in enumerate(vals) if v)
+                    else:
+                        res = frozenset(["<unknown>"])
+                        d["#unk"] = 1
+                else:
+                    res = frozenset(["<error>"])
+                got.add(res)
+                if d.get("#strop") or d.get("#unk"):
+                    flagged.append((text, sorted(res)))
+            if not n_ret:
+                raise kwalk.WalkLimit("%s: no path returns on the directive tail %r" % (fl.q, text))
         exp = {SPEC_FLAGS[c]} if c in SPEC_FLAGS else set()
-        ok = got == exp
-        rep.ob(R, "flag|%r" % c, ok, {"flag_char": c, "fields_set": sorted(got)})
+        ok = got == {frozenset(exp)}
+        if not ok and flagged:
+            raise kwalk.WalkLimit("%s reads the directive in a way the string model does not follow (directive tail, fields set on "
+                                  "that path: %s)" % (fl.q, flagged[:3]))
+        shown = sorted(set().union(*got)) if got else []
+        rep.ob(R, "flag|%r" % c, ok, {"flag_char": c, "fields_set": shown})
         if not ok:
-            rep.violation(R, "%s|flag|%s" % (fl.q, c), "flag character %r sets %s, printf says %s" % (c, sorted(got), sorted(exp)), fl.loc)
+            rep.violation(R, "%s|flag|%s" % (fl.q, c), "flag character %r sets %s, printf says %s"
+                          % (c, sorted(map(sorted, got)) if len(got) > 1 else shown, sorted(exp)), fl.loc)
     # dispatch: ConvType x value type
     fc = F.fn("<%s>::do_std_format_code" % E)
     VAL = ["Null", "Bool", "Number", "String", "Array", "Object", "Function"]
@@ -267,6 +507,68 @@ def rule_r4(F, rep):
                               ("left-over arguments are not reported" if label == "leftover" else "does not finish")), fn.loc)
 
 
+def _directive_model(F, key):
+    """after_stmt hook that fixes the directive being formatted: the part read from `parts` is a FormatPart::Code whose `fw` / `prec`
+    fields hold key["fw"] / key["prec"] ("None" | "Inline" | "External").
+
+    The values are planted in the environment under the place the part's discriminant is read from, so they travel with every
+    reference to / copy of the FormatCode or of one of its fields — also into helper functions walked in place, where the
+    field is only reachable through a `&Option<FieldWidth>` parameter.  A discriminant read spelled directly through the
+    `fw` / `prec` field (a FormatCode reached some other way) is answered the same way."""
+    FPART = FMT + "FormatPart"
+    FCODE = FMT + "FormatCode"
+    FWIDTH = FMT + "FieldWidth"
+    code_fields = [f["n"] for f in F.adt(FCODE)["variants"][0]["fields"]]
+    idx = {"fw": code_fields.index("fw"), "prec": code_fields.index("prec")}
+    part = F.adt(FPART)
+    cv = [v for v in part["variants"] if v["n"] == "Code"]
+    payload_is_code = False
+    if cv and len(cv[0]["fields"]) == 1:
+        t = part["_crate"].types[cv[0]["fields"][0]["t"]]
+        payload_is_code = t.get("k") == "adt" and t.get("d") == FCODE
+
+    def which_field(place):
+        """'fw' / 'prec' when the place goes through that field of a FormatCode"""
+        for pr in place["p"]:
+            if pr != "*" and pr["k"] == "f" and pr.get("n") in ("fw", "prec"):
+                return pr["n"]
+        return None
+
+    def plant(env, k, f):
+        env.kill(k)
+        if key[f] == "None":
+            env[k] = ("var", OPTION, "None")
+        else:
+            env[k] = ("var", OPTION, "Some")
+            env[k + "@Some.0"] = ("var", FWIDTH, key[f])
+
+    def after(w, bb, idx_, st, env):
+        rv = st["rv"]
+        if rv["k"] != "discr":
+            return
+        adt = rv.get("adt")
+        pl = rv["p"]
+        if adt == FPART:
+            k = w.norm(env, pl)
+            env[k] = ("var", FPART, "Code")
+            env[w.norm(env, st["p"])] = w.discr_of_variant(FPART, "Code")
+            if payload_is_code:
+                for f in ("fw", "prec"):
+                    plant(env, "%s@Code.0.%d" % (k, idx[f]), f)
+        elif adt == OPTION:
+            f = which_field(pl)
+            if f:
+                v = "None" if key[f] == "None" else "Some"
+                env[w.norm(env, pl)] = ("var", OPTION, v)
+                env[w.norm(env, st["p"])] = w.discr_of_variant(OPTION, v)
+        elif adt == FWIDTH:
+            f = which_field(pl)
+            if f and key[f] != "None":
+                env[w.norm(env, pl)] = ("var", FWIDTH, key[f])
+                env[w.norm(env, st["p"])] = w.discr_of_variant(FWIDTH, key[f])
+    return after
+
+
 def rule_r5(F, rep, rid="C19.R5"):
     """producer/consumer agreement of the array-argument state machine"""
     R = rep.rule(rid, "the two steps of array-argument formatting agree on how many operands travel over the value stack: for "
@@ -282,37 +584,10 @@ def rule_r5(F, rep, rid="C19.R5"):
     s2 = F.fn("<%s>::do_std_format_codes_array_2" % E)
     rep.fn(s1, s2)
 
-    def which_field(place):
-        """'fw' / 'prec' when the place goes through that field of a FormatCode"""
-        for pr in place["p"]:
-            if pr != "*" and pr["k"] == "f" and pr.get("n") in ("fw", "prec"):
-                return pr["n"]
-        return None
-
     def walk(fn, fw, prec, up):
         body = fn.body
         key = {"fw": fw, "prec": prec}
-
-        def after(w, bb, idx, st, env):
-            rv = st["rv"]
-            if rv["k"] != "discr":
-                return
-            adt = rv.get("adt")
-            pl = rv["p"]
-            if adt == FPART:
-                env[w.norm(env, pl)] = ("var", FPART, "Code")
-                env[w.norm(env, st["p"])] = w.discr_of_variant(FPART, "Code")
-            elif adt == OPTION:
-                f = which_field(pl)
-                if f:
-                    v = "None" if key[f] == "None" else "Some"
-                    env[w.norm(env, pl)] = ("var", OPTION, v)
-                    env[w.norm(env, st["p"])] = w.discr_of_variant(OPTION, v)
-            elif adt == FWIDTH:
-                f = which_field(pl)
-                if f and key[f] != "None":
-                    env[w.norm(env, pl)] = ("var", FWIDTH, key[f])
-                    env[w.norm(env, st["p"])] = w.discr_of_variant(FWIDTH, key[f])
+        after = _directive_model(F, key)
 
         def hook(w, bb, t, env, args):
             n = callee_name(t) or ""
@@ -448,40 +723,14 @@ def rule_r7(F, rep, rid="C19.R7"):
     # `array_i += 1` is lowered as tmp = AddWithOverflow(copy cursor, 1); cursor = move tmp.0 — the left operand is a cursor local
     if not cursor:
         raise AnchorMissing("do_std_format_codes_array_1: the cursor stored in State::StdFormatCodesArray2.array_i")
-    cursor = list(cursor)
-
-    def which_field(place):
-        for pr in place["p"]:
-            if pr != "*" and pr["k"] == "f" and pr.get("n") in ("fw", "prec"):
-                return pr["n"]
-        return None
+    cursor_keys = {str(l) for l in cursor}
 
     n = 0
     for fw in ("None", "Inline", "External"):
         for prec in ("None", "Inline", "External"):
             for up in (0, 1):
                 key = {"fw": fw, "prec": prec}
-
-                def after(w, bb, idx, st, env, key=key):
-                    rv = st["rv"]
-                    if rv["k"] != "discr":
-                        return
-                    adt = rv.get("adt")
-                    pl = rv["p"]
-                    if adt == FPART:
-                        env[w.norm(env, pl)] = ("var", FPART, "Code")
-                        env[w.norm(env, st["p"])] = w.discr_of_variant(FPART, "Code")
-                    elif adt == OPTION:
-                        f = which_field(pl)
-                        if f:
-                            v = "None" if key[f] == "None" else "Some"
-                            env[w.norm(env, pl)] = ("var", OPTION, v)
-                            env[w.norm(env, st["p"])] = w.discr_of_variant(OPTION, v)
-                    elif adt == FWIDTH:
-                        f = which_field(pl)
-                        if f and key[f] != "None":
-                            env[w.norm(env, pl)] = ("var", FWIDTH, key[f])
-                            env[w.norm(env, st["p"])] = w.discr_of_variant(FWIDTH, key[f])
+                after = _directive_model(F, key)
 
                 def hook(w, bb, t, env, args, up=up):
                     nm = callee_name(t) or ""
@@ -494,8 +743,9 @@ def rule_r7(F, rep, rid="C19.R7"):
                 def on_stmt(w, bb, idx, st, env):
                     if st["k"] == "assign" and st["rv"]["k"] == "binop" and st["rv"]["op"] in ("Add", "AddWithOverflow", "AddUnchecked"):
                         a = st["rv"]["a"]
-                        if a.get("k") in ("move", "copy") and a.get("l") in cursor and st["rv"]["b"].get("k") == "const":
-                            return ("advance", bb)
+                        # the operand *is* the cursor: the local itself, or (inside a helper walked in place) a `&mut` to it
+                        if a.get("k") in ("move", "copy") and w.norm(env, a) in cursor_keys and st["rv"]["b"].get("k") == "const":
+                            return ("advance", int(bb))
                     return None
                 m = em.Marker(F, body, 1, False)
 
